@@ -294,6 +294,10 @@ def type_or_id_filter(draw, objs):
     vs = type_v if which == "type" else id_v
     if op == "in":
         value = draw(st.lists(vs, min_size=0, max_size=4))
+        if draw(st.integers(0, 7)) == 0:
+            # a text as the right-hand side of `in` (substring test, as Python's `in`): the value itself, text around it, two joined
+            v = draw(vs)
+            value = draw(st.sampled_from([v, "x-" + v + "-kit", v + "," + draw(vs), v[:-1]]))
     elif op == "contains":
         v = draw(vs)
         a = draw(st.integers(0, max(0, len(v) - 1)))
@@ -302,6 +306,9 @@ def type_or_id_filter(draw, objs):
             value = v
     else:
         value = draw(vs)
+        if op in ("=", "!=") and draw(st.integers(0, 7)) == 0:
+            # a list compared for (in)equality with a text: never equal, always unequal
+            value = [value] + draw(st.lists(vs, max_size=1))
     return {"prop": which, "op": op, "value": value}
 
 
